@@ -933,3 +933,53 @@ def r06_1c(ctx):
                         f"({sizefn}) expects {want}: the address and everything after it are mis-decoded", body=w)
             else:
                 ctx.ok((which, key, adv), sample=dict(address=which, mode=dict(zip(getters, key)), inline_octets=adv))
+
+
+def _slice_tests(F, b, which):
+    """multiset of (start, end, rhs description) for `addr.octets()[a..b] == <array>` tests in b on the dst/src address"""
+    out = collections.Counter()
+    for x in b.calls():
+        nm = b.callee_name(x[1]) or x[1].get('fn') or ''
+        if not nm.endswith('::eq') or len(x[2]) != 2:
+            continue
+        a = strip(simplify(F.origin.operand(b, x[2][0], x[0], len(b.blocks[x[0]]['s']))))
+        r = simplify(F.origin.operand(b, x[2][1], x[0], len(b.blocks[x[0]]['s'])))
+        if a[0] == 'call' and a[1].rsplit('::', 1)[-1] == 'index' and len(a[2]) == 2:
+            base = strip(a[2][0])
+            if not (base[0] == 'call' and base[1].endswith('::octets')):
+                continue
+            src = strip(base[2][0])
+            tag = None
+            if src[0] == 'arg':
+                tag = 'param'
+            elif src[0] == 'field' and src[2] and src[2][-1][0] == 'f':
+                tag = src[2][-1][1]
+            if which == 'dst' and tag not in ('param', 'dst_addr'):
+                continue
+            if which == 'src' and tag not in ('param', 'src_addr'):
+                continue
+            rb = range_bounds(F, a[2][1])
+            if rb and rb[0] == 'Range':
+                out[(const_of(rb[1]), const_of(rb[2]), show(r)[:40])] += 1
+    return out
+
+
+@rule('R06.1d', ['C06', 'C20'], floor=2, clause='the IPHC writer chooses an address form by exactly the byte-range tests with which Repr::buffer_len sized it (a form chosen on a narrower test drops address bytes; a different one mis-sizes the header)')
+def r06_1d(ctx):
+    F = ctx.F
+    bl = ctx.method(IPHCR, 'buffer_len')
+    bodies = [bl] + F.closures_of(bl.key)
+    for which in ('dst', 'src'):
+        w = ctx.method(IPHC, f"set_{which}_address")
+        tw = _slice_tests(F, w, which)
+        tb = collections.Counter()
+        for b in bodies:
+            tb += _slice_tests(F, b, which)
+        ctx.need(tw, f"address byte-range tests in set_{which}_address")
+        if tw == tb:
+            ctx.ok((which, 'tests-agree'), sample=dict(address=which, tests=sorted(str(k[:2]) for k in tw)[:4]))
+        else:
+            only_w = sorted(str(k) for k in (tw - tb))
+            only_b = sorted(str(k) for k in (tb - tw))
+            ctx.bad(f"iphc|{which}-address-form-tests", f"set_{which}_address decides the address form with tests {only_w} where Repr::buffer_len uses {only_b}: "
+                    "address bytes are dropped or the emitted header does not have the declared length", body=w)
